@@ -232,8 +232,10 @@ def run_property(prop, tier, only=None, seed=0, write_evidence=True, quiet=False
                     if k is not None and k not in known_hits:
                         known_hits.append(k)
                 if new_conf:
-                    fn = write_replay(ob, new_conf[0], 'confirmed-counterexample')
-                    violations.append((ob['name'], fn, ''))
+                    # tier E obligations are static (frame / purity analyses of the source): they name the offending site, not an input
+                    static = r.get('tier') == 'E'
+                    fn = write_replay(ob, new_conf[0], 'static-analysis-obligation' if static else 'confirmed-counterexample')
+                    violations.append((ob['name'], fn, ' no-failing-input-found' if static else ''))
                 elif conf:
                     # only known regions hit: obligation stays red but accounted for
                     pass
@@ -269,7 +271,13 @@ def run_property(prop, tier, only=None, seed=0, write_evidence=True, quiet=False
         for s in r.get('seed_failures', []):
             for cl in s['replay'].get('failed', []):
                 full = r['case'] + '::' + cl
-                if full in proved_names:
+                if full in proved_names and annot_broken:
+                    # "proved" under a loop annotation that no longer verifies means nothing; the seed is a failing input
+                    if not any(v[0] == full for v in violations):
+                        fake = dict(name=full, verdict='proved-under-broken-annotation', paths=0, proved=0)
+                        fn = write_replay(fake, dict(inputs=s['inputs'], replay=s['replay'], info='boundary seed'), 'confirmed-boundary-seed')
+                        violations.append((full, fn, ''))
+                elif full in proved_names:
                     errors.append("%s: native seed %s fails a clause the engine proved (engine/oracle mismatch)" % (full, s['inputs']))
             if s['replay'].get('error') and not s['replay'].get('failed'):
                 errors.append("%s: native seed replay error: %s" % (r['case'], s['replay']['error']))
